@@ -97,6 +97,209 @@ func (w *world) observeReads(node *chainkit.Node, v *preconfirmed.ChainReader, s
 	return st, cl, tx, nil
 }
 
+type capture struct {
+	s1, s2 int
+	asked  uint64
+	v      preconfirmed.ChainReader
+}
+
+// concIter is one concurrent run: ONE writer replaying a behaviour, `samplers` goroutines that do
+// nothing but capture (counter, head, SnapshotForBlock, counter) in a tight loop — examined after
+// the run, when every later write has happened — and one validating reader that examines, holds,
+// re-fingerprints and reads through its views WHILE the writer is running.
+type concIter struct {
+	w        *world
+	node     *chainkit.Node
+	in       *input
+	beh      []step
+	seed     int64
+	storage  *preconfirmed.ChainStorage
+	ctr      atomic.Int64
+	headVar  atomic.Int64
+	start    atomic.Bool
+	done     atomic.Bool
+	mu       sync.Mutex
+	rEvents  []rEvent
+	diverged *vh.Divergence
+}
+
+func (c *concIter) report(key, what string, exp, obs any) {
+	c.mu.Lock()
+	defer c.mu.Unlock()
+	if c.diverged == nil {
+		c.diverged = &vh.Divergence{Key: key, What: what, Expected: exp, Observed: obs,
+			Input: vh.J{"tables": c.in.Tables, "behaviours": [][]step{c.beh}, "readers": c.in.Readers, "iters": 200}}
+	}
+}
+
+func (c *concIter) take(n, r int) capture {
+	var x capture
+	x.s1 = int(c.ctr.Load())
+	x.asked = uint64(c.headVar.Load()) + 1
+	if n%2 == 0 {
+		x.asked = uint64(1 + (n/2+r)%(c.in.Tables.MaxHead+1))
+	}
+	x.v = c.storage.SnapshotForBlock(x.asked)
+	x.s2 = int(c.ctr.Load())
+	return x
+}
+
+// examine checks what needs no model (coherent API, gap-free, aligned) and turns the capture into
+// the R event TLC will have to explain; withReads adds the state / class / lookup reads.
+func (c *concIter) examine(r int, x *capture, withReads bool) (rEvent, bool) {
+	slots, _, perr := c.w.projectReader(&x.v)
+	if perr != nil {
+		c.report("conc:view-incoherent", fmt.Sprintf("reader %d, view for %d taken between writer steps %d and %d: %v", r, x.asked, x.s1, x.s2, perr), nil, slots)
+		return rEvent{}, false
+	}
+	for j := range slots {
+		if slots[j].Num != x.asked+uint64(j) {
+			c.report("conc:view-gap", fmt.Sprintf("reader %d: view for %d (writer steps %d..%d) is not a gap-free run from %d", r, x.asked, x.s1, x.s2, x.asked), x.asked, slots)
+			return rEvent{}, false
+		}
+	}
+	ev := rEvent{Ev: "R", R: r, S1: x.s1, S2: x.s2, Asked: x.asked, Slots: slots, St: []map[string]int{}, Cl: []map[string]int{}, Tx: []int{}}
+	if withReads && len(slots) > 0 {
+		st, cl, tx, rerr := c.w.observeReads(c.node, &x.v, slots)
+		if rerr != nil {
+			c.report("conc:read-failed", rerr.Error(), nil, slots)
+			return rEvent{}, false
+		}
+		ev.HasReads, ev.St, ev.Cl, ev.Tx = true, st, cl, tx
+	}
+	return ev, true
+}
+
+func (c *concIter) guard(r int) {
+	if p := recover(); p != nil {
+		c.report("conc:reader-panic", fmt.Sprintf("reader %d panicked inside the pre-confirmed read path: %v", r, p), nil, nil)
+	}
+}
+
+// sampler: tight capture loop while the writer runs; keeps every capture that raced a write and a
+// thinned sample of the others; everything is examined after the run.
+func (c *concIter) sampler(r int, wg *sync.WaitGroup) {
+	defer wg.Done()
+	defer c.guard(r)
+	racing := make([]capture, 0, 96)
+	sample := make([]capture, 0, 24)
+	for !c.start.Load() {
+		runtime.Gosched()
+	}
+	for n := 0; ; n++ {
+		x := c.take(n, r)
+		if x.s1 != x.s2 {
+			if len(racing) < cap(racing) {
+				racing = append(racing, x)
+			}
+		} else if n%64 == 0 && len(sample) < cap(sample) {
+			sample = append(sample, x)
+		}
+		if c.done.Load() {
+			break
+		}
+	}
+	local := []rEvent{}
+	for _, set := range [][]capture{racing, sample} {
+		for i := range set {
+			ev, ok := c.examine(r, &set[i], i%8 == 0)
+			if !ok {
+				return
+			}
+			local = append(local, ev)
+		}
+	}
+	c.mu.Lock()
+	c.rEvents = append(c.rEvents, local...)
+	c.mu.Unlock()
+}
+
+// validator: examines, holds and re-validates views while the writer is running.
+func (c *concIter) validator(r int, wg *sync.WaitGroup) {
+	defer wg.Done()
+	defer c.guard(r)
+	rng := rand.New(rand.NewSource(c.seed + int64(r)))
+	ring := []held{}
+	local := []rEvent{}
+	for !c.start.Load() {
+		runtime.Gosched()
+	}
+	for n, extra := 0, 0; ; n++ {
+		if c.done.Load() {
+			if extra++; extra > 2 {
+				break
+			}
+		}
+		x := c.take(n, r)
+		ev, ok := c.examine(r, &x, n%3 == 0)
+		if !ok {
+			return
+		}
+		local = append(local, ev)
+		h := held{reader: x.v, fp: fingerprint(&x.v), asked: x.asked, s1: x.s1}
+		if len(ring) < 6 {
+			ring = append(ring, h)
+		} else {
+			ring[rng.Intn(len(ring))] = h
+		}
+		for i := range ring {
+			if fp := fingerprint(&ring[i].reader); fp != ring[i].fp {
+				was, is := fpDelta(ring[i].fp, fp)
+				c.report("conc:view-changed", fmt.Sprintf("reader %d: the view for %d taken at writer step %d changed afterwards (now step %d)",
+					r, ring[i].asked, ring[i].s1, c.ctr.Load()), was, is)
+				return
+			}
+		}
+	}
+	c.mu.Lock()
+	c.rEvents = append(c.rEvents, local...)
+	c.mu.Unlock()
+}
+
+// writer replays the behaviour; flat = no per-call inspection of the storage (results only), so
+// that the calls follow each other as fast as the code allows.
+func (c *concIter) writer(flat bool) []wEvent {
+	wEvents := []wEvent{}
+	wr := &run{w: c.w, node: c.node, storage: c.storage}
+	wrng := rand.New(rand.NewSource(c.seed * 7))
+	k := 0
+	for si := range c.beh {
+		st := &c.beh[si]
+		switch st.A.Name {
+		case "HeadAdvance", "HeadRevert":
+			c.headVar.Store(int64(len(st.Canon)))
+			continue
+		case "Snapshot", "ReaderChain":
+			continue
+		}
+		var m *mismatch
+		switch st.A.Name {
+		case "ApplyUpdate":
+			m = wr.applyUpdate(&st.A, &st.Res)
+		case "AdvanceTo":
+			if got := c.storage.AdvanceTo(st.A.O); got != st.Res.Ch {
+				m = mm("advance:"+st.Res.Tag+":result", "AdvanceTo returned the wrong changed flag", st.Res.Ch, got)
+			}
+		}
+		k++
+		c.ctr.Store(int64(k))
+		if m == nil && !flat {
+			m = wr.checkChain(st, "conc-writer:"+st.A.Name+":"+st.Res.Tag)
+		}
+		if m != nil {
+			c.report(m.key, m.what, m.expected, m.observed)
+			break
+		}
+		wEvents = append(wEvents, wEvent{Ev: "W", K: k, A: st.A, St: st.Res.St, Tag: st.Res.Tag, Chain: st.Chain})
+		if !flat {
+			for spin := wrng.Intn(30); spin > 0; spin-- {
+				runtime.Gosched()
+			}
+		}
+	}
+	return wEvents
+}
+
 func TestPreconfConc(t *testing.T) {
 	if !vh.Enabled() {
 		t.Skip()
@@ -134,159 +337,39 @@ func TestPreconfConc(t *testing.T) {
 		lines, iterations, rTotal, rRacing, rDistinct, nonEmpty int
 		lineOfIter                                              []int
 	)
-	seed := vh.Seed()
+	must := func(err error) {
+		if err != nil {
+			t.Fatalf("trace write: %v", err)
+		}
+	}
 	diverged := false
 	for bi, beh := range in.Behaviours {
 		for it := 0; it < in.Iters && !diverged; it++ {
 			iterations++
 			lineOfIter = append(lineOfIter, lines+1)
-			storage := preconfirmed.NewChainStorage()
-			var ctr, headVar atomic.Int64
-			var done atomic.Bool
-			var mu sync.Mutex
-			rEvents := []rEvent{}
-			report := func(key, what string, exp, obs any) {
-				mu.Lock()
-				defer mu.Unlock()
-				diverged = true
-				out.Diverge(vh.Divergence{Key: key, What: what, Expected: exp, Observed: obs,
-					Input: vh.J{"tables": in.Tables, "behaviours": [][]step{beh}, "readers": in.Readers, "iters": 50}})
-			}
+			c := &concIter{w: w, node: node, in: &in, beh: beh, seed: vh.Seed()*1_000_003 + int64(bi*1000+it*10),
+				storage: preconfirmed.NewChainStorage()}
 			var wg sync.WaitGroup
 			for r := 0; r < in.Readers; r++ {
 				wg.Add(1)
-				go func(r int) {
-					defer wg.Done()
-					defer func() {
-						if p := recover(); p != nil {
-							report("conc:reader-panic", fmt.Sprintf("reader %d panicked inside the pre-confirmed read path: %v", r, p), nil, nil)
-						}
-					}()
-					rng := rand.New(rand.NewSource(seed*1_000_003 + int64(bi*1000+it*10+r)))
-					ring := []held{}
-					local := []rEvent{}
-					extra := 0
-					type capture struct {
-						s1, s2 int
-						asked  uint64
-						v      preconfirmed.ChainReader
-					}
-					burst := make([]capture, 8)
-					for n := 0; ; n++ {
-						if done.Load() {
-							if extra++; extra > 2 {
-								break
-							}
-						}
-						// a burst of back-to-back captures (counter, head, snapshot, counter), examined afterwards
-						for b := range burst {
-							c := &burst[b]
-							c.s1 = int(ctr.Load())
-							c.asked = uint64(headVar.Load()) + 1
-							if (n+b)%2 == 0 {
-								c.asked = uint64(1 + (n+b+r)%(in.Tables.MaxHead+1))
-							}
-							c.v = storage.SnapshotForBlock(c.asked)
-							c.s2 = int(ctr.Load())
-						}
-						for b := range burst {
-							c := &burst[b]
-							s1, s2, asked, v := c.s1, c.s2, c.asked, c.v
-							slots, _, perr := w.projectReader(&v)
-							if perr != nil {
-								report("conc:view-incoherent", fmt.Sprintf("reader %d, view for %d taken between writer steps %d and %d: %v", r, asked, s1, s2, perr), nil, slots)
-								return
-							}
-							for j := range slots {
-								if slots[j].Num != asked+uint64(j) {
-									report("conc:view-gap", fmt.Sprintf("reader %d: view for %d is not a gap-free run from %d", r, asked, asked), asked, slots)
-									return
-								}
-							}
-							ev := rEvent{Ev: "R", R: r, S1: s1, S2: s2, Asked: asked, Slots: slots, St: []map[string]int{}, Cl: []map[string]int{}, Tx: []int{}}
-							if b == n%len(burst) && len(slots) > 0 {
-								st, cl, tx, rerr := w.observeReads(node, &v, slots)
-								if rerr != nil {
-									report("conc:read-failed", rerr.Error(), nil, slots)
-									return
-								}
-								ev.HasReads, ev.St, ev.Cl, ev.Tx = true, st, cl, tx
-							}
-							local = append(local, ev)
-							if b%3 == 0 {
-								h := held{reader: v, fp: fingerprint(&v), asked: asked, s1: s1}
-								if len(ring) < 6 {
-									ring = append(ring, h)
-								} else {
-									ring[rng.Intn(len(ring))] = h
-								}
-							}
-						}
-						for i := range ring {
-							if fp := fingerprint(&ring[i].reader); fp != ring[i].fp {
-								was, is := fpDelta(ring[i].fp, fp)
-								report("conc:view-changed", fmt.Sprintf("reader %d: the view for %d taken at writer step %d changed afterwards (now step %d)",
-									r, ring[i].asked, ring[i].s1, ctr.Load()), was, is)
-								return
-							}
-						}
-					}
-					mu.Lock()
-					rEvents = append(rEvents, local...)
-					mu.Unlock()
-				}(r)
-			}
-			// the single writer
-			wEvents := []wEvent{}
-			wr := &run{w: w, node: node, storage: storage}
-			wrng := rand.New(rand.NewSource(seed*7 + int64(bi*100+it)))
-			k := 0
-			for si := range beh {
-				st := &beh[si]
-				switch st.A.Name {
-				case "HeadAdvance", "HeadRevert":
-					headVar.Store(int64(len(st.Canon)))
-					continue
-				case "Snapshot", "ReaderChain":
-					continue
-				}
-				var m *mismatch
-				switch st.A.Name {
-				case "ApplyUpdate":
-					m = wr.applyUpdate(&st.A, &st.Res)
-				case "AdvanceTo":
-					if got := storage.AdvanceTo(st.A.O); got != st.Res.Ch {
-						m = mm("advance:"+st.Res.Tag+":result", "AdvanceTo returned the wrong changed flag", st.Res.Ch, got)
-					}
-				}
-				k++
-				ctr.Store(int64(k))
-				if m == nil {
-					m = wr.checkChain(st, "conc-writer:"+st.A.Name+":"+st.Res.Tag)
-				}
-				if m != nil {
-					report(m.key, m.what, m.expected, m.observed)
-					break
-				}
-				wEvents = append(wEvents, wEvent{Ev: "W", K: k, A: st.A, St: st.Res.St, Tag: st.Res.Tag, Chain: st.Chain})
-				// half of the iterations the writer runs flat out, the others it yields between calls
-				if it%2 == 1 {
-					for spin := wrng.Intn(30); spin > 0; spin-- {
-						runtime.Gosched()
-					}
+				if r == 0 {
+					go c.validator(r, &wg)
+				} else {
+					go c.sampler(r, &wg)
 				}
 			}
-			done.Store(true)
+			runtime.Gosched()
+			c.start.Store(true)
+			// two thirds of the runs the writer goes flat out, one third it inspects the storage and yields
+			wEvents := c.writer(it%3 != 2)
+			c.done.Store(true)
 			wg.Wait()
-			if diverged {
+			if c.diverged != nil {
+				out.Diverge(*c.diverged)
+				diverged = true
 				break
 			}
 			// trace: Reset, the writer's calls in order, then the DISTINCT reader observations
-			must := func(err error) {
-				if err != nil {
-					t.Fatalf("trace write: %v", err)
-				}
-			}
 			must(enc.Encode(map[string]any{"ev": "Reset", "iter": iterations}))
 			lines++
 			for i := range wEvents {
@@ -300,8 +383,8 @@ func TestPreconfConc(t *testing.T) {
 				lines++
 			}
 			seen := map[string]bool{}
-			for i := range rEvents {
-				e := rEvents[i]
+			for i := range c.rEvents {
+				e := c.rEvents[i]
 				rTotal++
 				if e.S1 != e.S2 {
 					rRacing++
@@ -331,7 +414,7 @@ func TestPreconfConc(t *testing.T) {
 	out.Stats["trace_lines"] = lines
 	out.Stats["trace_iter_start_lines"] = lineOfIter
 	out.Count("conc_iterations", iterations)
-	out.Count("conc_reads_total", rTotal)
+	out.Count("conc_reads_examined", rTotal)
 	out.Count("conc_reads_racing_a_write", rRacing)
 	out.Count("conc_reads_distinct_logged", rDistinct)
 	out.Count("conc_reads_nonempty_view", nonEmpty)
